@@ -25,6 +25,20 @@ c_Chains == { {E(i, i + 1, 1) : i \in 1..6},
               ({E(i, i + 1, 1) : i \in 1..6} \ {E(3, 4, 1)}) \cup {X(3, 4, 1)},
               {E(1, 1, 1)} \cup {E(i, i + 1, 1) : i \in 1..6},
               {E(i, i + 1, 1) : i \in 1..6} \cup {X(3, 4, 1), Y(3, 4, 1), X(5, 6, 1)} }
+\* two routes of different length between two nodes plus a tail, on up to 6 nodes: route A of a hops
+\* and route B of b hops from node 1 to node 2 (inner nodes numbered A first), then a tail of c hops
+\* from node 2; every (a, b, c) that fits, and the same graphs with every edge reversed.  Which route
+\* is met first by a traversal depends on the order in which the edges were linked: the binding
+\* replays each graph under several insertion orders.
+ChainOf(seq) == {E(seq[i], seq[i + 1], 1) : i \in 1..(Len(seq) - 1)}
+RouteGraph(a, b, c) ==
+    ChainOf(<<1>> \o [i \in 1..(a - 1) |-> 2 + i] \o <<2>>)
+    \cup ChainOf(<<1>> \o [i \in 1..(b - 1) |-> 2 + (a - 1) + i] \o <<2>>)
+    \cup ChainOf(<<2>> \o [i \in 1..c |-> 2 + (a - 1) + (b - 1) + i])
+Reversed(gr) == {Enc(Dst(x), Src(x), Rel(x), St(x)) : x \in gr}
+c_RouteShapes == {sh \in (1..3) \X (1..3) \X (0..2) : 2 + (sh[1] - 1) + (sh[2] - 1) + sh[3] <= N}
+c_Routes == {RouteGraph(sh[1], sh[2], sh[3]) : sh \in c_RouteShapes}
+            \cup {Reversed(RouteGraph(sh[1], sh[2], sh[3])) : sh \in c_RouteShapes}
 \* self-referential graphs on 4 nodes for the traversal cap (walks of 9..12 hops exist)
 c_CapGraphs == { {E(1, 1, 1)}, {E(1, 1, 1), E(1, 1, 2)}, {E(1, 1, 1), E(1, 2, 1), E(2, 1, 1)},
                  {E(1, 2, 1), E(2, 1, 2)}, {E(1, 2, 1), E(2, 3, 1), E(3, 1, 1), X(3, 3, 1)},
